@@ -307,5 +307,101 @@ theorem visit_inv (cfg : Cfg) (qn : QName) (R : Tree) (hRn : (ids R).Nodup) (x :
           simp only
           rw [updateAttrs_get cfg.ignored path ln.payload.attrs x.payload.attrs s2.out hattr k, if_neg hk]
 
+/-! ### the main loop over the breadth-first order of the right tree -/
+
+theorem visitAll_inv (cfg : Cfg) (qn : QName) (R : Tree) (hRn : (ids R).Nodup)
+    (hA : ∀ x ∈ bfs R, (keys x.payload.attrs).Nodup)
+    (hC : ∀ x ∈ bfs R, x.payload.kind = .comment → x.payload.tag = [])
+    (xs pre : List Tree) (hb : bfs R = pre ++ xs) (s s' : DState) (D : List Nat)
+    (hD : ∀ i, i ∈ D ↔ i ∈ pre.map Tree.id) (inv : Inv cfg.ignored R s D D)
+    (h : visitAll qn cfg R xs s = .ok s') :
+    ∃ D', (∀ i, i ∈ D' ↔ i ∈ ids R) ∧ Inv cfg.ignored R s' D' D' := by
+  induction xs generalizing pre s D with
+  | nil =>
+    simp only [visitAll, Except.ok.injEq] at h
+    subst h
+    refine ⟨D, ?_, inv⟩
+    intro i
+    rw [hD i]
+    have : pre = bfs R := by simpa using hb.symm
+    rw [this]
+    exact (bfs_ids_perm R).mem_iff
+  | cons x rest ih =>
+    simp only [visitAll, bind, Except.bind] at h
+    split at h
+    · cases h
+    · next s1 hv =>
+      have hxb : x ∈ bfs R := by rw [hb]; simp
+      have hx : find x.id R = some x := bfs_sub R hRn x hxb
+      have hnd := bfs_nodup R hRn
+      rw [hb, List.map_append, List.map_cons] at hnd
+      have hxD : x.id ∉ D := by
+        intro hd
+        have := (hD _).mp hd
+        exact (List.nodup_append.mp hnd).2.2 _ this _ List.mem_cons_self rfl
+      have hpar : ∀ py, x.id ∈ kidIds R py → py ∈ D := by
+        intro py hk
+        rcases bfs_parent_before R pre rest x hb with e | ⟨p, hp, hxp⟩
+        · exfalso
+          have := (parId_iff R hRn x.id py).mpr hk
+          rw [e, root_no_parent R hRn] at this
+          cases this
+        · have hpb : p ∈ bfs R := by rw [hb]; simp [hp]
+          have hpf : find p.id R = some p := bfs_sub R hRn p hpb
+          have hk2 : x.id ∈ kidIds R p.id := by
+            unfold kidIds; rw [hpf]; exact List.mem_map.mpr ⟨x, hxp, rfl⟩
+          rw [parent_unique R hRn x.id py p.id hk hk2]
+          exact (hD _).mpr (List.mem_map.mpr ⟨p, hp, rfl⟩)
+      have inv1 := visit_inv cfg qn R hRn x hx s s1 D inv hxD hpar (hA x hxb) (hC x hxb) hv
+      apply ih (pre ++ [x]) (by rw [hb]; simp) s1 (x.id :: D) _ inv1 h
+      intro i
+      simp only [List.mem_cons, List.map_append, List.map_cons, List.map_nil, List.mem_append, List.mem_nil_iff,
+        or_false, hD i]
+      constructor
+      · rintro (e | e)
+        · exact Or.inr e
+        · exact Or.inl e
+      · rintro (e | e)
+        · exact Or.inr e
+        · exact Or.inl e
+
+/-- what the theorem assumes about the matching handed to the script generator (everything `match()` guarantees,
+by C07): one-to-one, between nodes of the two documents, of equal kind, the roots paired with each other -/
+structure GoodMatching (L R : Tree) (M : List (Nat × Nat)) : Prop where
+  lefts : (lefts M).Nodup
+  rights : (rights M).Nodup
+  dom : ∀ p ∈ M, p.1 ∈ ids L ∧ p.2 ∈ ids R
+  root : (L.id, R.id) ∈ M
+  kind : ∀ p ∈ M, ∀ pl pr, payOf L p.1 = some pl → payOf R p.2 = some pr → pl.kind = pr.kind
+
+theorem init_inv (ign : List Str) (L R : Tree) (M : List (Nat × Nat)) (fresh : Nat) (hL : (ids L).Nodup)
+    (hdisj : ∀ i ∈ ids L, i ∉ ids R) (hfL : ∀ i ∈ ids L, i < fresh) (hfR : ∀ i ∈ ids R, i < fresh)
+    (hM : GoodMatching L R M) :
+    Inv ign R { left := L, ms := M.reverse, inorder := [], out := [], next := fresh } [] [] := by
+  have hmem : ∀ p, p ∈ M.reverse ↔ p ∈ M := fun p => List.mem_reverse
+  refine
+    { wf := hL, disj := hdisj, freshL := hfL, freshR := hfR, mL := ?_, mR := ?_, mdom := ?_, mroot := ?_, mkind := ?_,
+      ioPair := ?_, ioM := ?_, home := ?_, ord := ?_, unvis := ?_, vis := ?_, aligned := ?_, sub := ?_ }
+  · show (XmlDiffModel.lefts M.reverse).Nodup
+    rw [XmlDiffModel.lefts, List.map_reverse]
+    exact (List.pairwise_reverse.mpr (hM.lefts.imp (fun h => Ne.symm h)))
+  · show (XmlDiffModel.rights M.reverse).Nodup
+    rw [XmlDiffModel.rights, List.map_reverse]
+    exact (List.pairwise_reverse.mpr (hM.rights.imp (fun h => Ne.symm h)))
+  · intro p hp; exact hM.dom p ((hmem p).mp hp)
+  · exact (hmem _).mpr hM.root
+  · intro p hp; exact hM.kind p ((hmem p).mp hp)
+  · intro p _; simp
+  · intro i hi; cases hi
+  · intro p _ hi; cases hi
+  · intro p _
+    have e : ∀ l : List Nat, l.filter (ioB []) = [] := by
+      intro l; rw [List.filter_eq_nil_iff]; intro c _; simp [ioB]
+    simp only [e]; rfl
+  · intro x _ _ y _ hi; cases hi
+  · intro y hy; cases hy
+  · intro x hx; cases hx
+  · intro x hx; cases hx
+
 end Chw
 end XmlDiffModel
